@@ -132,6 +132,80 @@ def r12_1(ctx):
     return r
 
 
+HINT_STRICT = re.compile(r"^(&mut |&)*(slot_flag::SlotFlag|core::option::Option<slot_flag::SlotFlag>|patch_flags::PatchFlags|core::option::Option<patch_flags::PatchFlags>)$")
+
+
+def _hint_tests(ctx, mb):
+    """blocks that branch on a value of hint type (SlotFlag / PatchFlags, also inside Option): directly (match / if let on it) or on
+    the boolean result of one of its pure queries (is_empty, contains, is_some, ==)"""
+    fl = flow_of(ctx, mb)
+    tys = {l["i"]: l["ty"] for l in mb["locals"]}
+    out = []
+    for blk in mb["blocks"]:
+        t = blk.get("term") or {}
+        if t.get("k") != "switch":
+            continue
+        p = place_of(t["discr"])
+        seen = set()
+        todo = [p["l"]] if p else []
+        hit = False
+        while todo and not hit:
+            l = todo.pop()
+            if l in seen:
+                continue
+            seen.add(l)
+            if HINT_STRICT.match(tys.get(l, "")):
+                hit = True
+                break
+            for kind, bb, d in fl.defs.get(l, []):
+                if kind == "stmt":
+                    rv = d["rv"]
+                    for q in ([rv.get("place")] if rv.get("rk") in ("discr", "ref") else []) + [place_of(rv.get(k)) for k in ("op", "a", "b")]:
+                        if q:
+                            if HINT_STRICT.match(q.get("ty", "")):
+                                hit = True
+                            todo.append(q["l"])
+                elif tys.get(l, "") == "bool" and PURE_CALLEES.search(callee_name(d)):
+                    for a in d["args"]:
+                        q = place_of(a)
+                        if q:
+                            todo.append(q["l"])
+        if hit:
+            out.append(blk["i"])
+    return out
+
+
+def r12_3(ctx):
+    r = Rule("R12.3", "hint values stay hints: whatever is control-dependent on a SlotFlag / PatchFlags value (also wrapped in Option) is hint-only",
+             "an `Option<SlotFlag>` that is `None` without optimize turns a branch on it into a branch on the option")
+    F = ctx.facts
+    seen = {}
+
+    def ob(key, ok, loc, detail):
+        key = key.replace("under optimize", "under a hint-value test")
+        c = seen.get(key, 0)
+        seen[key] = c + 1
+        r.ob(key if c == 0 else "%s #%d" % (key, c + 1), ok, loc, detail.replace("options.optimize", "a hint value (which exists / differs only with optimize)"))
+    n = 0
+    pending = []
+    for mb in F.mir:
+        if mb["crate"] != VISITOR_CRATE or mb.get("mac"):
+            continue
+        rootb = F.mir_by_path.get((mb["crate"], root_path(mb))) or mb
+        if rootb.get("mac") or not (is_visitor_body(mb) or is_visitor_body(rootb)):
+            continue
+        tests = _hint_tests(ctx, mb)
+        if not tests:
+            continue
+        g = C.cfg_of(ctx, mb)
+        infl = {b for b in g.reach for (a, s_) in g.transitive_control_branches(b) if a in tests}
+        n += len(tests)
+        r.saw(mb["path"])
+        _check_blocks(ctx, mb, infl, ob, pending)
+    r.ob("branches on hint-typed values examined", True, "-", "%d branch(es) on SlotFlag / PatchFlags values" % n)
+    return r
+
+
 def _check_blocks(ctx, mb, infl, ob, pending_closures, whole=False):
     fl = flow_of(ctx, mb)
     reads = _reads_index(mb)
@@ -184,6 +258,10 @@ def _check_blocks(ctx, mb, infl, ob, pending_closures, whole=False):
             key = "%s: %s under optimize" % (root, name.split("::")[-1])
             loc = C.mloc(mb, t)
             handled = False
+            if name.startswith("patch_flags::") and mut_args and all(HINT_TY.match(ty[5:]) for _, _, ty in mut_args):
+                # the bitflags-generated mutators of PatchFlags: a hint value is updated
+                ob(key + " [PatchFlags]", True, loc, "H2: &mut PatchFlags updated by its own generated method")
+                continue
             if PURE_CALLEES.search(name) and not mut_args:
                 handled = True
             elif (mb["crate"], name) in ctx.facts.mir_by_path or (VISITOR_CRATE, name) in ctx.facts.mir_by_path:
@@ -363,7 +441,7 @@ def _conj(e):
 
 
 def rules(ctx):
-    return [r12_1, r12_2]
+    return [r12_1, r12_2, r12_3]
 
 
 EXPLANATION = (
